@@ -90,6 +90,8 @@ PAIRS = [
          requires=lambda a: [tm.mk_le(tm.ZERO, a["offset"]), tm.mk_le(a["offset"] + a["nalpha"], a["stride"])]),
     dict(name="SDMX orbital contraction (l=0)", rel="mod_cider/fast_sdmx.c", fwd="SDMXcontract_ao_to_bas", bwd="SDMXcontract_ao_to_bas_bwd",
          x="ao", y="vbas", tables=["rf_loc", "ao_loc"], partition=("thread", "g", "ngrids")),
+    dict(name="SDMX orbital contraction with the grid displacement (x component)", rel="mod_cider/fast_sdmx.c", fwd="SDMXcontract_ao_to_bas_grid", bwd="SDMXcontract_ao_to_bas_grid_bwd",
+         x="ao", y="vbas", tables=["rf_loc", "ao_loc"], partition=("thread", "g", "ngrids")),
     dict(name="l=1 coefficient fill", rel="mod_cider/conv_interpolation.c", fwd="fill_l1_coeff_fwd", bwd="fill_l1_coeff_bwd",
          x="f_u", y="d_uv", tables=[]),
 ]
@@ -379,7 +381,7 @@ def unit_plan_adjoint(version, level):
 def unit_registry(ctx):
     for what in ("multiply_atc_integrals / multiply_atc_integrals_vk (dgemm + pair tables of convolution_collection)", "contract_rad_to_orb / contract_orb_to_rad",
                  "compute_mol_convs_* / compute_pot_convs_*", "NLDFGaussianPlan.get_transformed_interpolation_terms (fwd / bwd solve)",
-                 "LCAOInterpolator._interpolate_nopar_atom and the Python forward / backward chains", "SDMXcontract_ao_to_bas_grid / _grid_bwd",
+                 "LCAOInterpolator._interpolate_nopar_atom and the Python forward / backward chains",
                  "SDMXBasePlan.get_features / get_vxc", "SDMXcontract_ao_to_bas_l1 / _l1_bwd (scratch-buffer pattern outside the supported C subset)",
                  "contract_shl_to_alpha_l1 / _bwd (two different collapsed block loops: the bijection needs a div/mod re-indexing the matcher does not find)",
                  "project_conv_to_spline / project_spline_to_conv (loop nests related through the atom <-> shell tables of the C-built struct)"):
